@@ -1,6 +1,7 @@
 package main
 
 import (
+	"io"
 	"bufio"
 	"fmt"
 	"strings"
@@ -280,6 +281,73 @@ func c05Ring(o *out, text string, r *rng) {
 	}
 }
 
+// the scanner reads through a bufio.Reader: the tokens of a text must not depend on where the reader's buffer ends.
+// The reference run gives the scanner the whole text in one buffer; the plain run lets NewScanner wrap a reader that
+// hands out the text in pieces (io.Reader contract: any piece size), with CR, LF and multi-byte runes on the seams.
+type chunkReader struct {
+	s    string
+	size int
+}
+
+func (c *chunkReader) Read(p []byte) (int, error) {
+	if len(c.s) == 0 {
+		return 0, io.EOF
+	}
+	n := c.size
+	if n > len(c.s) {
+		n = len(c.s)
+	}
+	if n > len(p) {
+		n = len(p)
+	}
+	copy(p, c.s[:n])
+	c.s = c.s[n:]
+	return n, nil
+}
+
+func c05ReaderBoundaries(o *out, r *rng) {
+	run := func(text string, rd io.Reader, what string) {
+		ref, _, ok := scanAll(text)
+		if !ok {
+			return
+		}
+		o.count("reader-boundary")
+		o.checked()
+		s := influxql.NewScanner(rd)
+		for i, want := range ref {
+			tok, pos, lit := s.Scan()
+			if tok != want.tok || pos != want.pos || lit != want.lit {
+				o.fail("", fmt.Sprintf("token %d of a %d-byte text read %s is %s %q at %d:%d, read from one buffer it is %s %q at %d:%d", i, len(text), what, tok, lit, pos.Line, pos.Char,
+					want.tok, want.lit, want.pos.Line, want.pos.Char), map[string]interface{}{"op": "reader_boundary", "text": text, "what": what})
+				return
+			}
+		}
+	}
+	for _, seam := range []int{4096, 8192} {
+		for _, piece := range []string{"\r\n", "\r", "\n", "\r\r\n", "é", "日", "'a\r\nb'", "-- c\r\nx", "/* \r\n */", "\r\n\r\n"} {
+			for off := -3; off <= 1; off++ {
+				pad := seam + off - 9
+				text := "SELECT a " + strings.Repeat("x", pad) + piece + " FROM m WHERE b = 1\r\nAND c = 'z'"
+				run(text, strings.NewReader(text), "through the scanner's own 4096-byte buffer")
+			}
+		}
+	}
+	for i := 0; i < 60; i++ {
+		var b strings.Builder
+		for j := 0; j < 4+r.intn(12); j++ {
+			b.WriteString(pick(r, lexPieces))
+			b.WriteString(pick(r, []string{" ", "\r\n", "\r", "\n", ""}))
+		}
+		text := b.String()
+		if strings.ContainsRune(text, 0) {
+			continue
+		}
+		for _, size := range []int{1, 2, 3, 7} {
+			run(text, &chunkReader{text, size}, fmt.Sprintf("in pieces of %d bytes", size))
+		}
+	}
+}
+
 // positions outside Scan: the REGEX token of ScanRegex, and parse errors that carry no token at all
 func c05RegexAndErrorPositions(o *out) {
 	for _, prefix := range []string{"", "x ", "a =~ ", "a =~\n", "  ", "a\r\n=~ ", "f(", "'s' "} {
@@ -326,6 +394,7 @@ func propC05(o *out, r *rng, thorough bool) {
 		lexOne(o, w, "witness", true)
 	}
 	c05RegexAndErrorPositions(o)
+	c05ReaderBoundaries(o, r)
 	// walks over the token ring, on statements and on random token soups; every depth of pushback up to three
 	walks := 400
 	if thorough {
